@@ -434,3 +434,25 @@ class WindowJudge:
                                        f"party {x} is no receiver of {op['k']} {iofam._brief(op)} but was sent "
                                        f"{sum(got.values())} bytes during it: {sorted(got.items())}"))
                 return
+
+
+from .families import convfam  # noqa: E402
+
+
+@_register
+class C06(Spec):
+    check_id = 'C06'
+    family = 'conv'
+    title = 'secure conversion between types preserves values'
+    quick = {'runs': 3000, 'wall': 75}
+    thorough = {'runs': 500000, 'wall': 900}
+    expected_probes = ('int->int', 'int->fxp', 'fxp->int', 'fxp->fxp', 'int->fld', 'fld->int', 'fld->fld')
+
+    def make_case(self, seed, tier):
+        rng = random.Random(f'C06/{seed}')
+        cfg = sample_cfg(rng, tier)
+        prog = convfam.gen(rng, cfg, tier)
+        return {'family': 'conv', 'cfg': cfg.to_json(), 'prog': prog, 'seed': seed}
+
+    def sample(self, case, res):
+        return {'seed': case['seed'], 'cfg': case['cfg'], 'prog': case['prog'], 'results': repr(res.results)[:300]}
